@@ -34,6 +34,9 @@ func ruleC08(r *Report) {
 	br := &BoundsRules{R: r, A: a, S: sc}
 	sel, _ := encCertSelector(p)
 	br.Check(append([]*ssa.Function{sel}, stringHelpersOf(p, sel)...), "C08.cert-index", boundsOpts{OnlySchemaDerived: true})
+	r.Rule("C08.current-key", "the encryption certificate is a function of the metadata registered now: the selector and the helpers it is split into read no package-level variable that the library writes at run time (a cache keyed by entity ID keeps encrypting to a key the SP has retired)", 1)
+	checkNoProcessStateFor(r, p, sel, "C08.current-key", "the encryption certificate does not depend on state the library keeps between calls",
+		"the certificate selection consults", "assertions keep being encrypted to the certificate seen first after the SP registered a new one, so the SP's current key cannot open them and the retired key can")
 }
 
 // encCertSelector: role = the IdpAuthnRequest method returning (*x509.Certificate, error) that reads KeyDescriptors.
